@@ -3,10 +3,13 @@
 //!
 //! An instruction crosses the wire as `(i <kind> "<key>" <pid> "<text>" (<qubits>))`:
 //! * kind  — which arm of `Program::add_instruction` takes it (`ext decl frame wave cal mcal gate circ body`);
-//! * key   — the container key: region / waveform / gate / circuit name, frame identifier, calibration
-//!           signature, extern name (`S:<name>`) or none (`N`). Frame identifiers and calibration
-//!           signatures are interned with the REAL equality (`==` / `has_signature`), so two keys are the
-//!           same string iff quil-rs considers them the same key;
+//! * key   — the container key, computed INDEPENDENTLY of the implementation's key comparison: region /
+//!           waveform / gate / circuit name; for frame identifiers and calibration signatures the printed
+//!           identifier plus the Debug rendering of its AST fields (modifiers, name, parameters, qubits /
+//!           name, qubit, target); extern name (`S:<name>`) or none (`N`). Every time an identifier is
+//!           projected it is also compared with all identifiers seen so far using the implementation's own
+//!           `has_signature` / `==`; a disagreement with key equality is counted in `key_mismatches` and
+//!           reported as `(keymm n)` — a failure of its own;
 //! * pid   — identity of the whole instruction under the real `Instruction: PartialEq`;
 //! * text  — `to_quil_or_debug()` (placeholder addresses replaced by their interned number);
 //! * qubits — exactly what `Instruction::get_qubits()` returns, in order.
@@ -23,9 +26,9 @@ use std::collections::HashSet;
 #[derive(Default)]
 pub struct Proj {
     instrs: Vec<Instruction>,
-    frames: Vec<FrameIdentifier>,
-    cals: Vec<CalibrationIdentifier>,
-    mcals: Vec<MeasureCalibrationIdentifier>,
+    frames: Vec<(String, FrameIdentifier)>,
+    cals: Vec<(String, CalibrationIdentifier)>,
+    mcals: Vec<(String, MeasureCalibrationIdentifier)>,
     placeholders: Vec<QubitPlaceholder>,
     /// pids whose full projection has already been put on the wire
     sent: Vec<bool>,
@@ -33,6 +36,27 @@ pub struct Proj {
     pending: Vec<Sexp>,
     /// calibration definitions whose `get_qubits()` is not identifier qubits ++ body instructions' qubits
     pub cal_qubit_mismatches: u64,
+    /// pairs (new identifier, stored identifier) on which the independent key (from the AST fields /
+    /// printed identifier) and the implementation's own key equality (`has_signature`, `==`) disagree
+    pub key_mismatches: u64,
+}
+
+/// Intern `x` by the INDEPENDENT key `ikey`; count every stored element on which the implementation's
+/// equality `real_eq` gives a different verdict than key equality. Returns the number of mismatches.
+fn intern_checked<T: Clone>(table: &mut Vec<(String, T)>, x: &T, ikey: &str, real_eq: impl Fn(&T, &T) -> bool) -> u64 {
+    let mut mism = 0;
+    let mut found = false;
+    for (k, y) in table.iter() {
+        let same_key = k == ikey;
+        if same_key != real_eq(y, x) || same_key != real_eq(x, y) {
+            mism += 1;
+        }
+        found |= same_key && real_eq(y, x);
+    }
+    if !found {
+        table.push((ikey.to_string(), x.clone()));
+    }
+    mism
 }
 
 fn intern<T: Clone>(table: &mut Vec<T>, x: &T, eq: impl Fn(&T, &T) -> bool) -> usize {
@@ -93,19 +117,34 @@ impl Proj {
     pub fn kind_key(&mut self, i: &Instruction) -> (&'static str, String) {
         match i {
             Instruction::CalibrationDefinition(c) => {
-                let k = intern(&mut self.cals, &c.identifier, |a, b| a.has_signature(&b.signature()));
-                ("cal", format!("C{k}:{}", self.scrub(c.identifier.to_quil_or_debug())))
+                // independent key: the identifier's AST fields (modifiers, name, parameters, qubits)
+                let id = &c.identifier;
+                let key = self.scrub(format!(
+                    "{} ## {:?} {:?} {:?} {:?}",
+                    id.to_quil_or_debug(),
+                    id.modifiers,
+                    id.name,
+                    id.parameters,
+                    id.qubits
+                ));
+                self.key_mismatches += intern_checked(&mut self.cals, id, &key, |a, b| a.has_signature(&b.signature()));
+                ("cal", key)
             }
             Instruction::CircuitDefinition(c) => ("circ", c.name.clone()),
             Instruction::FrameDefinition(f) => {
-                let k = intern(&mut self.frames, &f.identifier, |a, b| a == b);
-                ("frame", format!("F{k}:{}", self.scrub(f.identifier.to_quil_or_debug())))
+                let id = &f.identifier;
+                let key = self.scrub(format!("{} ## {:?} {:?}", id.to_quil_or_debug(), id.name, id.qubits));
+                self.key_mismatches += intern_checked(&mut self.frames, id, &key, |a, b| a == b);
+                ("frame", key)
             }
             Instruction::Declaration(d) => ("decl", d.name.clone()),
             Instruction::GateDefinition(g) => ("gate", g.name.clone()),
             Instruction::MeasureCalibrationDefinition(c) => {
-                let k = intern(&mut self.mcals, &c.identifier, |a, b| a.has_signature(&b.signature()));
-                ("mcal", format!("M{k}:{}", self.scrub(c.identifier.to_quil_or_debug())))
+                let id = &c.identifier;
+                let key =
+                    self.scrub(format!("{} ## {:?} {:?} {:?}", id.to_quil_or_debug(), id.name, id.qubit, id.target));
+                self.key_mismatches += intern_checked(&mut self.mcals, id, &key, |a, b| a.has_signature(&b.signature()));
+                ("mcal", key)
             }
             Instruction::WaveformDefinition(w) => ("wave", w.name.clone()),
             Instruction::Pragma(p) if p.name == RESERVED_PRAGMA_EXTERN => (
@@ -144,6 +183,11 @@ impl Proj {
             out.push(nat(pid as u64));
         }
         list(out)
+    }
+
+    /// `(keymm <n>)`: how often the independent key and the implementation's key equality disagreed
+    pub fn key_report(&self) -> Sexp {
+        tagged("keymm", vec![nat(self.key_mismatches)])
     }
 
     /// `(new <full projections queued by pids()>)`
@@ -223,6 +267,50 @@ pub const EXTRA_POOL: &[&str] = &[
     "DEFCAL MEASURE 2 addr:\n\tX 11",
     "DEFCAL MEASURE 2 addr:\n\tX 2",
     "DEFCAL MEASURE 2:\n\tFENCE 2 3",
+    // calibrations that a sloppy signature comparison could confuse: identical up to modifiers …
+    "DEFCAL X 0 1:\n\tX 22",
+    "DEFCAL DAGGER X 0 1:\n\tX 23",
+    "DEFCAL CONTROLLED X 0 1:\n\tX 24",
+    "DEFCAL DAGGER DAGGER X 0 1:\n\tX 25",
+    "DEFCAL DAGGER CONTROLLED X 0 1:\n\tX 26",
+    "DEFCAL CONTROLLED DAGGER X 0 1:\n\tX 27",
+    "DEFCAL FORKED X 0 1:\n\tX 28",
+    "DEFCAL DAGGER X 0:\n\tY 14",
+    "DEFCAL CONTROLLED X 0:\n\tY 15",
+    "DEFCAL RX(pi) 0:\n\tX 30",
+    "DEFCAL DAGGER RX(pi) 0:\n\tX 31",
+    // … up to parameters (equal only after simplification / evaluation, not syntactically) …
+    "DEFCAL RX(1.5707963267948966) 0:\n\tX 32",
+    "DEFCAL RX(2*pi/4) 0:\n\tX 33",
+    "DEFCAL RX(0.5*pi) 0:\n\tX 34",
+    "DEFCAL RX(%u) 0:\n\tX 35",
+    "DEFCAL RX(pi, pi) 0:\n\tX 36",
+    "DEFCAL RX 0:\n\tX 37",
+    // … up to qubits fixed / variable / order / count …
+    "DEFCAL X r:\n\tX r",
+    "DEFCAL X 0 q:\n\tX 38",
+    "DEFCAL X q 0:\n\tX 39",
+    "DEFCAL X q r:\n\tX 40",
+    "DEFCAL X 1 0:\n\tX 41",
+    "DEFCAL RX(pi) q:\n\tX 42",
+    // … measure calibrations: named / unnamed, with / without target, target names, fixed / variable
+    "DEFCAL MEASURE 0:\n\tX 43",
+    "DEFCAL MEASURE 0 dest:\n\tX 44",
+    "DEFCAL MEASURE q:\n\tX 45",
+    "DEFCAL MEASURE r addr:\n\tX 46",
+    "DEFCAL MEASURE!mid 0 addr:\n\tX 47",
+    "DEFCAL MEASURE!mid 0:\n\tX 48",
+    "DEFCAL MEASURE!end 0 addr:\n\tX 49",
+    // … frames: qubit order and count
+    "DEFFRAME 1 0 \"cz\":\n\tDIRECTION: \"tx\"",
+    "DEFFRAME 0 \"cz\":\n\tDIRECTION: \"tx\"",
+    "DEFFRAME 0 1 \"rf\":\n\tDIRECTION: \"tx\"",
+    "X 0 1",
+    "DAGGER X 0 1",
+    "CONTROLLED X 0 1",
+    "RX(pi) 0",
+    "DAGGER RX(pi) 0",
+    "MEASURE!mid 0 ro[0]",
     "DEFCAL I 6:\n\tI 6",
     "I 6",
     "DEFCAL Z 3:\n\tDECLARE tmp BIT[1]\n\tPULSE 3 \"rf\" wf\n\tH 4",
